@@ -30,8 +30,9 @@ TECHNIQUE = ("explicit-state model checking (per-cycle BFS, all ready patterns, 
              "RawPacketTransmitter netlist and of its composition with the link-layer receivers, against reference packet "
              "encoders written from the USB 3.2 specification and calibrated on the repository's recorded packets")
 
-MAXSTART = 3      # cycles from the request to HPSTART being driven
-MAXLAT = 3        # cycles after DW3 within which the header receiver must have reported
+MAXSTART = 5      # cycles after the request cycle by which HPSTART must be driven (it may also be driven in the request cycle)
+MAXDONE = 2       # cycles after the transfer of the last word within which `done` must be seen (normally the same cycle)
+MAXLAT = 4        # cycles after DW3 within which the header receiver must have reported
 
 HDR_FIELDS = ("dw0", "dw1", "dw2", "crc16", "sequence_number", "dw3_reserved", "hub_depth", "delayed", "deferred", "crc5")
 
@@ -103,6 +104,9 @@ def wide_alphabet(tier, consistent_length):
             out.append((with_len(DATA_BASE, n), payload_bytes(n, fl)))
     for n in (0, 5):
         out.append((with_len(DATA_BASE[:6] + (1,) + DATA_BASE[7:], n), payload_bytes(n, 0)))
+    # the longest legal payloads (1024 bytes and the three trailing-byte counts below it)
+    for n in ((1024, 1023) if tier == "quick" else (1024, 1023, 1022, 1021)):
+        out.append((with_len(DATA_BASE, n), payload_bytes(n, 1)))
     # single-bit flips of DW0 of the data header (other types, reserved types, addresses), of DW1 (not the length when it
     # has to be consistent) and DW2; as ZLP and with 6 bytes
     for w in range(3):
@@ -223,7 +227,7 @@ def build_loop():
 # ------------------------------------------------------------------------------------------------ the specification
 IDLE_RX = (None, -1, (), None, 0, 0, 0, 0)
 DRAIN = 5         # wide mode: idle cycles observed after the packet before the path ends
-MAXVERDICT = 2    # cycles after the last word of a data packet by which packet_good must have been seen
+MAXVERDICT = 4    # cycles after the last word of a data packet by which packet_good must have been seen
 
 
 class PacketSpec(Spec):
@@ -254,7 +258,8 @@ class PacketSpec(Spec):
              "data_sink) are held from the request until `done`; the header's own crc16 / crc5 inputs carry garbage (documented as ignored)",
              "data_sink presents the payload without interruption: byte-valid mask 1111 on every word but the last (1, 11, 111 or 1111), "
              "`last` on the last word, nothing (valid = 0) for a zero-length packet or a non-data header; unused byte lanes carry 0xEE",
-             f"the first word of a requested packet must be driven within {MAXSTART} cycles; no bubble is allowed inside a packet",
+             f"the first word of a requested packet must be driven in the request cycle or within {MAXSTART} cycles after it; no bubble is "
+             f"allowed inside a packet; `done` comes with the transfer of the last word or at most {MAXDONE} cycles later, never otherwise",
              "after the CRC-32 either END END END EPF follows immediately (rest of the word = logical idle) or END symbols pad the word and "
              "a whole END END END EPF word follows (both readings of the statement admitted)"]
         if self.loop:
@@ -266,7 +271,7 @@ class PacketSpec(Spec):
         return a
 
     # env = (phase, pkt, idx, encmask, spos, wait, rx)
-    #   phase 0 idle / 1 packet in flight / 2 (wide mode) packet finished, observing DRAIN more cycles;  pkt: index into self.packets
+    #   phase 0 idle / 1 packet in flight / 2 (wide alphabet) packet finished, observing DRAIN more cycles / 3 `done` still owed;  pkt: index into self.packets
     #   idx: next word of the packet to be transferred; encmask: admitted encodings still matching; spos: next data_sink word
     #   rx (loop): state of the receiver monitors, see rx_monitor
     def env0(self):
@@ -284,6 +289,7 @@ class PacketSpec(Spec):
         phase = env[0]
         if phase == 0: return [("idle",)] + (self._gen if env[1] < 0 else self._gen_closure)
         if phase == 1: return [("run", r, g) for r in (0, 1) for g in (0, 1)]
+        if phase == 3: return [("idle",)]
         return [("idle",)] if env[5] < DRAIN else []
 
     def label(self, a):
@@ -316,12 +322,20 @@ class PacketSpec(Spec):
             p = a[1]
             encs = self.encodings(p)
             o = self.drive(cur, p, 1, 0, 0, env[1])
-            self.check_idle(o, env)
+            if o.done: raise Violation("tx:done-mismatch", dict(done=1, idle=True))
+            if o.valid and not any(e[0] == (o.data, o.ctrl) for e in encs):     # the start word may already be driven (not taken: ready is low)
+                raise Violation("tx:header-start", dict(word_index=0, got=[hex(o.data), o.ctrl], in_request_cycle=True))
             if self.loop: rx = self.rx_monitor(o, rx, p, None)
             self.cover["request"] += 1
             return (1, p, 0, (1 << len(encs)) - 1, 0, 0, rx)
         if a[0] == "idle":
             o = self.drive(cur, -1, 0, 1, 0, p)
+            if phase == 3:               # last word transferred, `done` still owed
+                if o.valid: raise Violation("tx:word-without-request", dict(data=hex(o.data), ctrl=o.ctrl, previous_packet=p))
+                if self.loop: rx = self.rx_monitor(o, rx, p, None)
+                if o.done: return (2 if p >= self.nclosure else 0, p, 0, 0, 0, 0, rx)
+                if wait + 1 > MAXDONE: raise Violation("tx:done-missing", dict(waited=wait + 1))
+                return (3, p, 0, 0, 0, wait + 1, rx)
             self.check_idle(o, env)
             if self.loop: rx = self.rx_monitor(o, rx, p, None)
             return (phase, p, 0, 0, 0, wait + 1 if phase == 2 else 0, rx)
@@ -358,12 +372,12 @@ class PacketSpec(Spec):
                 self.cover["dpp_%dB_tail" % (len(payload) % 4)] += 1
                 if not payload: self.cover["zlp"] += 1
             last = idx == n - 1
-            if o.done != (1 if (ready and last) else 0):
-                if last and ready and not is_data(h):
-                    o2 = cur.fork().step(ready=0)
-                    if o2.valid and (o2.data, o2.ctrl) == ref.DPPSTART:
-                        raise Violation("tx:dpp-after-non-data-header", dict(header_type=h[0] & 0x1F, dw0=hex(h[0])))
+            if o.done and not (ready and last):
                 raise Violation("tx:done-mismatch", dict(done=o.done, ready=ready, word_index=idx, last_word=last))
+            if last and ready and not o.done and not is_data(h):
+                o2 = cur.fork().step(ready=0)
+                if o2.valid and (o2.data, o2.ctrl) == ref.DPPSTART:
+                    raise Violation("tx:dpp-after-non-data-header", dict(header_type=h[0] & 0x1F, dw0=hex(h[0])))
             if ready:
                 transferred = (idx, n)
                 idx += 1
@@ -374,6 +388,7 @@ class PacketSpec(Spec):
             self.cover["packet_sent"] += 1
             if is_data(h) and h[6]: self.cover["aborted_dpp"] += 1
             self.outcomes.add(p)
+            if not o.done: return (3, p, 0, 0, 0, 0, rx)
             return (2 if p >= self.nclosure else 0, p, 0, 0, 0, 0, rx)
         return (1, p, idx, encmask, spos, wait, rx)
 
@@ -407,7 +422,7 @@ class PacketSpec(Spec):
         if transferred:
             idx, n = transferred
             if idx == 4: hdr_due = (0, p)
-            if idx > 0 and data_pkt and idx == n - 1: verdict_age = 0
+            if idx > 4 and dpkt == p and data_pkt and idx == n - 1: verdict_age = 0
         # the word holding the last CRC-32 byte is being presented by the transmitter (a verdict taken while that word is still
         # stalled is early but not wrong: the statement fixes no timing)
         if presented is not None and dpkt == p and data_pkt and presented >= 5 + (len(payload) + 4 + 3) // 4: crc_done = 1
@@ -455,7 +470,8 @@ class PacketSpec(Spec):
                 elif verdict_age >= MAXVERDICT:
                     raise Violation("roundtrip:no-good-verdict" + (":after-aborted-dpp" if after_abort else ""), dict(payload=payload.hex(), payload_len=len(payload)))
                 else: verdict_age += 1
-        if transferred and transferred[0] == 0:
+        # the data receiver cannot know anything of a new packet before its DW3: until then strobes belong to the previous one
+        if transferred and transferred[0] == 4:
             if verdict_age is not None: raise Violation("roundtrip:no-good-verdict", dict(payload=payload.hex(), payload_len=len(payload)))
             dpkt, got, verdict_age, good, crc_done, after_abort = p, (), None, 0, 0, int(aborted)
         return (hdr_due, dpkt, got, verdict_age, good, int(bool(o.packet_good) and not aborted), crc_done, after_abort)
